@@ -39,23 +39,15 @@ Proof.
     crush_step; simpl; auto.
 Qed.
 
-(* case analysis on the discriminee at the HEAD of the hypothesis only (no spurious splits on guards of other branches) *)
-Ltac crush_head :=
-  repeat (cbv zeta in *; match goal with
-  | H : Some _ = Some _ |- _ => inversion H; subst; clear H
-  | H : None = Some _ |- _ => discriminate H
-  | H : (if ?b then _ else _) = Some _ |- _ => destruct b eqn:?
-  | H : match ?x with _ => _ end = Some _ |- _ => destruct x eqn:?
-  end).
-
 Ltac tbl_facts :=
   eauto using kill_group_no_ingroup, pstep_no_ingroup, term_leader_no_ingroup, pstep_leaders_in,
     kill_group_leaders_in, term_leader_leaders_in, pstep_tbl_ok, kill_group_tbl_ok, term_leader_tbl_ok, root_tbl_ok.
 
 Ltac inv_solve :=
+  repeat match goal with H : match mu ?s with _ => _ end = _ |- _ => destruct (mu s) eqn:?; try discriminate H end;
   repeat match goal with H : _ && _ = true |- _ => apply andb_true_iff in H; destruct H end;
   unfold Inv; simpl; use_eqs; simpl in *;
-  repeat split; intros; simpl in *; try discriminate; try congruence; auto;
+  repeat split; intros; simpl in *; try discriminate; try congruence; auto; try apply orb_true_r;
   try solve [intuition (try congruence; try discriminate)]; tbl_facts;
   try (match goal with |- context [root_proc ?t] => destruct t; reflexivity end);
   try solve [exfalso; match goal with x : st |- _ => destruct (mainpc x) eqn:?; simpl in *; intuition (try congruence; try discriminate) end].
@@ -68,7 +60,7 @@ Proof.
   unfold is_on in *.
   destruct l; simpl in H;
     unfold main_step, user_step, mon_step, stop_step, watch_step, runwatch_step, proc_step, mu_free, is_on in H.
-  - crush_head; inv_solve.
+  - crush_head; try (destruct (ctx_done s) eqn:?); inv_solve.
   - crush_head; inv_solve.
   - crush_head; inv_solve.
   - crush_head; inv_solve.
